@@ -253,8 +253,13 @@ func c19Core(run *mon.Run) {
 	for rep := 0; rep < reps; rep++ {
 		for _, G := range []int{2, 8, 32} {
 			r0 := run.Rand(fmt.Sprintf("world-%d-%d", rep, G))
-			w := newC19World(r0)
-			before := w.fingerprint()
+			var w *c19World
+			var before string
+			// building the table already calls ComputeHash/Sign/... sequentially; a hasher corrupted by a
+			// read-only operation shows here (e.g. x/crypto panics on Write after Read)
+			if run.Guard("sequential-table", map[string]any{"goroutines": G}, func() { w = newC19World(r0); before = w.fingerprint() }) {
+				return
+			}
 			// sequential pass: every operation agrees with the table when run alone
 			local := [2]hash.Hasher{hash.NewSHA3_256(), hash.NewSHA2_256()}
 			for op := range c19Ops {
@@ -294,7 +299,8 @@ func c19Core(run *mon.Run) {
 				}(g)
 			}
 			wg.Wait()
-			if after := w.fingerprint(); after != before {
+			var after string
+			if !run.Guard("fingerprint-after-storm", map[string]any{"goroutines": G}, func() { after = w.fingerprint() }) && after != before {
 				run.Violate("C19:arguments-modified", "an argument buffer, key encoding or shared hasher state changed during the storm", map[string]any{"goroutines": G})
 			}
 			run.Shape(fmt.Sprintf("storm|G%d|rep%d", G, rep))
@@ -303,7 +309,7 @@ func c19Core(run *mon.Run) {
 	}
 	for _, op := range c19Ops {
 		run.Shape("op|" + op)
-		run.Require(run.Counter("calls."+op) >= int64(min(200, calls/20)), "fewer than 200 concurrent calls of "+op)
+		run.Require(run.Counter("calls."+op) >= int64(min(200, calls/20)) || run.ViolationCount() > 0, "fewer than 200 concurrent calls of "+op)
 	}
 }
 
@@ -311,9 +317,9 @@ func c19Core(run *mon.Run) {
 func C19(run *mon.Run) {
 	run.Rule = "goroutine storms (G in {2,8,32}) picking from KMAC128 ComputeHash on one hasher, BLS Sign/Verify/BLSVerifyPOP/SPOCKVerify/aggregate/batch verification sharing keys and one expand_message hasher, ECDSA Sign/Verify sharing keys with per-goroutine hashers; every result compared with a table computed sequentially; all argument buffers, key encodings and hasher states fingerprinted before and after; run in the default build and under the race detector; shape = (goroutine count, repetition) and (operation)"
 	run.Assumptions = []string{"PublicKey() and BLSGeneratePOP are called before the concurrent phase (their lazy caching is not in the property's list)", "the race detector does not see memory accesses made by C code; a C-side race would have to show through the result-equality monitor"}
-	run.Builds = append(run.Builds, "default")
-	c19Core(run)
+	run.RunChild(os.Getenv("VERIF_BIN"), "c19core", "default", 40*time.Minute)
 	raceChild(run, "c19core", 40*time.Minute)
+	run.Require(run.Counter("default.storms") >= 3, "default build ran fewer than 3 storms")
 	run.Require(run.Counter("race.storms") >= 3, "race build ran fewer than 3 storms")
 	run.Sample(map[string]any{"operations": c19Ops, "goroutine_counts": []int{2, 8, 32}})
 }
